@@ -29,7 +29,7 @@ theorem C28_witness_bad_chunk :
     ¬ (∀ ka segs scs, clientOK segs scs = true → Resync ka segs scs) := by
   intro h
   have := h true
-    [.req ⟨2, true, 0, .no, true, .bad [], false⟩, .req ⟨0, true, 0, .no, true, .none, false⟩] [] (by decide)
+    [.req ⟨2, true, 0, .no, true, .bad [], false, false⟩, .req ⟨0, true, 0, .no, true, .none, false, false⟩] [] (by decide)
     (61, 1) (by decide)
   revert this
   decide
@@ -110,23 +110,23 @@ theorem C28_stop_after_error (ka : Bool) (pos i : Nat) (rest : List Seg) (scs : 
 /-! Non-vacuity: a three-request pipelined stream (POST with chunked body + trailer read partly by the
     handler, an Expect request whose body is omitted, a GET) satisfies the hypotheses; the first two
     are handled, and the loop closes after the unanswered Expect. -/
-example : noBad [.req ⟨2, true, 0, .no, true, .chunked [3, 4] true, false⟩, .req ⟨2, true, 0, .cont, false, .len 28, true⟩,
-                 .req ⟨0, true, 0, .no, true, .none, false⟩] = true := by decide
-example : clientOK [.req ⟨2, true, 0, .no, true, .chunked [3, 4] true, false⟩, .req ⟨2, true, 0, .cont, false, .len 28, true⟩,
-                    .req ⟨0, true, 0, .no, true, .none, false⟩] [⟨.part 2, .respond 200 false false true 2 0⟩] = true := by decide
-example : (serve true [.req ⟨2, true, 0, .no, true, .chunked [3, 4] true, false⟩, .req ⟨2, true, 0, .cont, false, .len 28, true⟩,
-                       .req ⟨0, true, 0, .no, true, .none, false⟩] [⟨.part 2, .respond 200 false false true 2 0⟩]).starts
+example : noBad [.req ⟨2, true, 0, .no, true, .chunked [3, 4] true, false, false⟩, .req ⟨2, true, 0, .cont, false, .len 28, false, true⟩,
+                 .req ⟨0, true, 0, .no, true, .none, false, false⟩] = true := by decide
+example : clientOK [.req ⟨2, true, 0, .no, true, .chunked [3, 4] true, false, false⟩, .req ⟨2, true, 0, .cont, false, .len 28, false, true⟩,
+                    .req ⟨0, true, 0, .no, true, .none, false, false⟩] [⟨.part 2, .respond 200 false false true 2 0⟩] = true := by decide
+example : (serve true [.req ⟨2, true, 0, .no, true, .chunked [3, 4] true, false, false⟩, .req ⟨2, true, 0, .cont, false, .len 28, false, true⟩,
+                       .req ⟨0, true, 0, .no, true, .none, false, false⟩] [⟨.part 2, .respond 200 false false true 2 0⟩]).starts
           = [(0, 0), (87, 1)] := by decide
 
 /-! Waiting client: the body (and everything after it) is held back until the server answers.  The
     hypotheses are met, and the loop closes after the unanswered Expect — nothing after message 0 is read. -/
-example : clientOK [.req ⟨2, true, 0, .cont, false, .len 28, true⟩, .req ⟨0, true, 0, .no, true, .none, false⟩]
+example : clientOK [.req ⟨2, true, 0, .cont, false, .len 28, false, true⟩, .req ⟨0, true, 0, .no, true, .none, false, false⟩]
                    [⟨.no, .respond 200 false false true 2 0⟩] = true := by decide
-example : (serve true [.req ⟨2, true, 0, .cont, false, .len 28, true⟩, .req ⟨0, true, 0, .no, true, .none, false⟩]
+example : (serve true [.req ⟨2, true, 0, .cont, false, .len 28, false, true⟩, .req ⟨0, true, 0, .no, true, .none, false, false⟩]
                       [⟨.no, .respond 200 false false true 2 0⟩]).starts = [(0, 0)] := by decide
 /-- … and when the handler asks for the body (`100 Continue` is sent) the waiting client sends it and
     the next request is read at its RFC start 71 + 28. -/
-example : (serve true [.req ⟨2, true, 0, .cont, false, .len 28, true⟩, .req ⟨0, true, 0, .no, true, .none, false⟩]
+example : (serve true [.req ⟨2, true, 0, .cont, false, .len 28, false, true⟩, .req ⟨0, true, 0, .no, true, .none, false, false⟩]
                       [⟨.all, .respond 200 false false true 2 0⟩]).starts = [(0, 0), (99, 1)] := by decide
 
 end BfeVerif.C28
